@@ -2,7 +2,10 @@
 """Regenerates /verif/MANIFEST.json from tools/manifest_table.json (one entry per claimed property)."""
 import json, os
 V = os.path.dirname(os.path.dirname(os.path.abspath(__file__)))
-table = json.load(open(os.path.join(V, 'tools', 'manifest_table.json')))
+table = {}
+for fn in sorted(os.listdir(os.path.join(V, 'tools', 'manifest'))):
+    if fn.endswith('.json'):
+        table[fn[:-5]] = json.load(open(os.path.join(V, 'tools', 'manifest', fn)))
 props = [json.loads(l)['id'] for l in open(os.path.join(V, 'properties.jsonl'))]
 checks, na = [], []
 for pid in props:
